@@ -132,3 +132,71 @@ func hasQuant(t *Term) bool {
 	quantMemo[t] = r
 	return r
 }
+
+// relaxNL abstracts non-linear arithmetic (products of two non-constants, division/modulo by a non-constant) by
+// uninterpreted functions. The relaxed formula is weaker, so relaxed-unsat implies unsat (sound for proofs);
+// a relaxed model is only a candidate counterexample.
+func relaxNL(t *Term, memo map[*Term]*Term) *Term {
+	if r, ok := memo[t]; ok {
+		return r
+	}
+	var r *Term
+	if len(t.Args) == 0 {
+		r = t
+	} else {
+		args := make([]*Term, len(t.Args))
+		ch := false
+		for i, a := range t.Args {
+			args[i] = relaxNL(a, memo)
+			if args[i] != a {
+				ch = true
+			}
+		}
+		switch {
+		case t.Op == "*" && !args[0].IsInt() && !args[1].IsInt():
+			a, b := args[0], args[1]
+			if a.ID > b.ID {
+				a, b = b, a
+			}
+			r = App("nl.mul", SInt, a, b)
+		case (t.Op == "div" || t.Op == "mod") && !args[1].IsInt():
+			r = App("nl."+t.Op, SInt, args[0], args[1])
+		case ch:
+			if t.Op == "forall" || t.Op == "exists" {
+				if t.Op == "forall" {
+					r = Forall(t.Bound, args[0])
+				} else {
+					r = Exists(t.Bound, args[0])
+				}
+			} else {
+				r = rebuild(t, args)
+			}
+		default:
+			r = t
+		}
+	}
+	memo[t] = r
+	return r
+}
+
+func hasNL(t *Term, memo map[*Term]bool) bool {
+	if v, ok := memo[t]; ok {
+		return v
+	}
+	r := false
+	switch {
+	case t.Op == "*" && !t.Args[0].IsInt() && !t.Args[1].IsInt():
+		r = true
+	case (t.Op == "div" || t.Op == "mod") && !t.Args[1].IsInt():
+		r = true
+	default:
+		for _, a := range t.Args {
+			if hasNL(a, memo) {
+				r = true
+				break
+			}
+		}
+	}
+	memo[t] = r
+	return r
+}
